@@ -144,7 +144,15 @@ func C18(c *vk.Ctx) {
 			for i, t := range targets {
 				names[i] = t.name
 			}
+			rowsArg := rows
 			for bi, cols := range blocks {
+				rows := rowsArg
+				if rowsArg < 0 {
+					rows = 0
+					if len(cols) > 0 {
+						rows = len(cols[0].vals)
+					}
+				}
 				var result proto.Result
 				switch mode {
 				case "typed":
@@ -376,6 +384,12 @@ func C18(c *vk.Ctx) {
 						c4[j].vals = vals
 					}
 					check(fmt.Sprintf("%s/pair-same-schema", base), [][]col18{cols, c4}, rows, eq, "typed")
+					// a zero-row block of the same schema after a block with rows: targets must end up empty
+					c5 := append([]col18{}, cols...)
+					for j := range c5 {
+						c5[j].vals = nil
+					}
+					check(fmt.Sprintf("%s/pair-then-zero-rows", base), [][]col18{cols, c5}, -1, eq, "typed")
 				}
 			}
 		}
